@@ -77,6 +77,9 @@ type Upstream struct {
 	Server  *httptest.Server
 	URL     string
 	healthy int32 // HTTP status of /healthz (0 = hang up)
+	// healthBody: what /healthz answers with ("" = the text "ok"); e.g. a JSON Status object, as an apiserver
+	// answers failed requests
+	healthBody atomic.Value
 	mu      sync.Mutex
 	seen    map[string]*Seen
 	order   []string
@@ -150,6 +153,9 @@ func (p *Pool) Find(id string) []*Seen {
 // SetHealth sets the /healthz status of an upstream (200 healthy, 500 unhealthy, 0 hang up, -1 accept and never answer, -2 answer 200 and stall in the body).
 func (u *Upstream) SetHealth(status int) { atomic.StoreInt32(&u.healthy, int32(status)) }
 
+// SetHealthBody sets the body (and, when it starts with '{', the JSON content type) of the /healthz answers.
+func (u *Upstream) SetHealthBody(body string) { u.healthBody.Store(body) }
+
 // Probes returns the arrival times of /healthz probes.
 func (u *Upstream) Probes() []time.Time {
 	u.mu.Lock()
@@ -193,8 +199,14 @@ func (u *Upstream) serve(w http.ResponseWriter, r *http.Request) {
 			}
 			return
 		}
+		body, _ := u.healthBody.Load().(string)
+		if body == "" {
+			body = "ok"
+		} else if body[0] == '{' {
+			w.Header().Set("Content-Type", "application/json")
+		}
 		w.WriteHeader(st)
-		_, _ = w.Write([]byte("ok"))
+		_, _ = w.Write([]byte(body))
 		return
 	}
 	id := r.Header.Get(IDHeader)
